@@ -1405,6 +1405,14 @@ class Interp:
     # ---------------------------------------------------------------- calls
     def e_Call(self, e, env):
         fnode = e.func
+        if isinstance(fnode, ast.Attribute) and fnode.attr in ("all", "any") and not e.args and not e.keywords:
+            # (a <= b).all() where the comparison was decided on the path: the decided truth value
+            try:
+                v0 = self.eval(fnode.value, env)
+            except Unsupported:
+                v0 = None
+            if isinstance(v0, bool):
+                return v0
         args = []
         for a in e.args:
             if isinstance(a, ast.Starred):
